@@ -437,6 +437,9 @@ func (e *Engine) callees0(site ssa.CallInstruction) []*ssa.Function {
 // unwrap maps synthetic wrappers (bound-method closures, thunks, pointer-receiver wrappers) to the declared method.
 func (e *Engine) unwrap(f *ssa.Function) *ssa.Function {
 	for i := 0; f != nil && f.Synthetic != "" && i < 4; i++ {
+		if f.Origin() != nil {
+			break // an instantiation of a generic function is a function in its own right
+		}
 		if obj, ok := f.Object().(*types.Func); ok && obj != nil {
 			if g := e.Prog.FuncValue(obj); g != nil && g != f {
 				f = g
